@@ -142,6 +142,7 @@ def run(ctx, P='C10', cache_only=False):
     # ---------------------------------------------------------------- B
     run_count_pairing(ctx)
     run_merge_own_pending(ctx)
+    run_deleted_member(ctx)
     # ---------------------------------------------------------------- D
     run_noflush_reads(ctx)
     run_pending_marks(ctx)
@@ -267,6 +268,29 @@ def setdata_vars(fn_node):
     for n in walk_no_nested(fn_node):
         if isinstance(n, ast.Name) and n.id.startswith('setdata'): out.add(n.id)
     return out
+
+
+def run_deleted_member(ctx):
+    """`item in collection` agrees with iteration / len() / count() for an item the session has deleted: delete() takes the item out of every
+    collection but leaves the deleted item's own attribute values, so a branch of __contains__ that answers from the item's side must not be
+    reachable for a deleted item.  Scenario: item._status_ in del_statuses -- every reachable return is `return False`."""
+    from ..typestate import scenario_edges
+    repo, cg = ctx.repo, ctx.cg
+    f = repo.fn('pony.orm.core', 'SetInstance.__contains__'); g = cg.cfg(f)
+    item = f.params[1]
+    def deleted(text, node):
+        if isinstance(node, ast.Compare) and len(node.ops) == 1 and isinstance(node.ops[0], (ast.In, ast.NotIn)) and dotted(node.left) == item + '._status_' \
+                and dotted(node.comparators[0]) in ('del_statuses', 'created_or_deleted_statuses'):
+            return isinstance(node.ops[0], ast.In)
+        if isinstance(node, ast.Call) and dotted(node.func) == 'isinstance': return True
+        if isinstance(node, ast.Compare) and '_session_cache_' in text: return isinstance(node.ops[0], ast.Is) if len(node.ops) == 1 else None
+        return None
+    live = g.reach([g.entry], edge_ok=scenario_edges(g, f.node, deleted, resolve=True))
+    rets = [x for x in g.nodes if x.kind == 'stmt' and isinstance(x.ast, ast.Return) and x.id in live]
+    bad = [x for x in rets if not (isinstance(x.ast.value, ast.Constant) and x.ast.value.value is False)]
+    ctx.ob('C10-B.a-deleted-item-is-not-a-member', f, bad[0].ast if bad else f.node, bool(rets) and not bad,
+           '' if rets and not bad else 'for an item the session has deleted `item in collection` can be answered by `%s`: the deleted item keeps its own reference to the owner, so `in` says True '
+           'while iteration, len() and count() of the same collection no longer contain it' % (norm(bad[0].ast)[:50] if bad else '?'), node=bad[0].ast if bad else None)
 
 
 def run_merge_own_pending(ctx):
@@ -396,6 +420,7 @@ def count_known_none(g, st, var):
 
 
 MUTANTS = [
+    dict(id='C10-del1', file='pony/orm/core.py', fn='SetInstance.__contains__', old="        if item._status_ in del_statuses: return False  # it was taken out of every collection when it was deleted\n", new="", expect='C10-B.a-deleted-item'),
     dict(id='C10-own1', file='pony/orm/core.py', fn='Set.load', old="                if setdata2.removed: items -= setdata2.removed\n                setdata2 |= items", new="                if setdata.removed: items -= setdata.removed\n                setdata2 |= items", expect='C10-B.loaded-rows'),
     dict(id='C10-f1', file='pony/orm/core.py', fn='SessionCache._calc_modified_m2m', old="            if reverse in modified_m2m:\n", new="            if reverse in modified_m2m: continue\n            if False:\n", expect='C10-F.flush-settles'),
     dict(id='C10-d3', file='pony/orm/core.py', fn='SetInstance.count', old="        with cache.flush_disabled():\n            cursor = database._exec_sql(sql, arguments)\n        setdata.count = cursor.fetchone()[0]", new="        cursor = database._exec_sql(sql, arguments)\n        setdata.count = cursor.fetchone()[0]", benign=True),
